@@ -224,7 +224,7 @@ where T: yui::Integer + Bridge<O = Z> + DivRound, for<'x> &'x T: yui::IntOps<T> 
 }
 
 pub fn run(ctx: &mut Ctx) {
-    let n = ctx.by_tier(40_000u64, 4_000_000);
+    let n = ctx.by_tier(120_000u64, 4_000_000);
     macro_rules! euc { ($t:ty, $plain:expr) => { ctx.random_cases(&<$t as Bridge>::name(), n, |c, r| pair::<$t>(c, r, $plain)); }; }
     euc!(i32, true);
     euc!(i64, true);
